@@ -212,3 +212,20 @@ package types
 //@   trusted "callback-taking container method: the callback is assumed to touch listener registries only"
 //@   requires s != nil
 //@   modifies s.elements
+
+// ---- HttpContext: thin contracts used by callers (the response discipline itself is proved on Write below) ----
+//@ func (*HttpContext).SetStatusCode(statusCode)
+//@   requires c != nil
+//@   modifies c.statusCode
+//@ func (*HttpContext).Write(wb)
+//@   props C11
+//@   requires c != nil && c.response != nil && c.ResponseHeaders != nil
+//@   modifies *
+//@   ensures [C11.nevertwice] old(c.isDone.v) != 0 ==> result1 != nil && result0 == 0 && calls(http.ResponseWriter.Write) == 0 && calls(http.ResponseWriter.WriteHeader) == 0
+//@   ensures [C11.once]       old(c.isDone.v) == 0 ==> calls(http.ResponseWriter.Write) == 1 && calls(http.ResponseWriter.WriteHeader) == 1 && before(http.ResponseWriter.WriteHeader, 1, http.ResponseWriter.Write, 1)
+//@ func NewBytesBuffer(buf)
+//@   fresh
+//@   ensures result != nil
+//@ func NewStringBuffer(buf)
+//@   fresh
+//@   ensures result != nil
